@@ -32,7 +32,7 @@ func HarnessC01PT() {
 	s.OnMutate = zzLeakInvariant(s)
 
 	s.FaultAt = zz.Choose("fault.at", zz.Bound(14, 18)) - 1
-	s.FaultKind = 1 + zz.Choose("fault.kind", 2)
+	s.FaultKind = 1 + zz.Choose("fault.kind", 3)
 	_, err1 := c.Compose(context.Background(), zzReadXR(s), req)
 	if s.Faulted {
 		zz.Cover("fault-hit")
